@@ -20,7 +20,7 @@ from vlib.shrink import shrink_seq
 
 ID = "C08"
 LEVEL = "exploration"
-BUDGET = {"quick": 75, "thorough": 900}
+BUDGET = {"quick": 200, "thorough": 1200}
 RULE = (
     "case = (variant in {default, ISISv}, text rendered from a generated document "
     "with a non-empty set of value gaps, expected tree, expected line number per "
